@@ -4,8 +4,17 @@
 #[path = "/verif/harness/bits.rs"]
 pub(crate) mod bits;
 
+#[path = "/verif/harness/tape.rs"]
+pub(crate) mod tape;
+
 #[path = "/verif/spec/spec.rs"]
 pub(crate) mod spec;
+
+#[path = "/verif/harness/specdec.rs"]
+pub(crate) mod specdec;
+
+#[path = "/verif/harness/specenc.rs"]
+pub(crate) mod specenc;
 
 /// An obligation that could not be decided for a reason that is not a fault of
 /// the code under verification (model capacity exceeded etc.).  The runner
